@@ -9,8 +9,8 @@ theorem shiftOps_sndAlpha : A64.shiftOps.all sndAlpha = true := by decide
 
 theorem shiftOp_none_snd_digit (g : Txt) (c d : Nat) (t : Txt) (hg : Blank g) (hc : isWs c = false)
     (hd : isDigitC d = true) : shiftOp (g ++ c :: d :: t) = none :=
-  clitOr_none _ _ _ (fun l hl =>
-    clit_none_snd_digit g c d t l hg hc hd (List.all_eq_true.mp shiftOps_sndAlpha l hl))
+  shiftOp_none_of_clitOr _ (clitOr_none _ _ _ (fun l hl =>
+    clit_none_snd_digit g c d t l hg hc hd (List.all_eq_true.mp shiftOps_sndAlpha l hl)))
 
 /-! ### scalar registers `x5`, `W12`, `q31`, … -/
 theorem goodOp_scalar (p n : Nat) (hp : isScalarPrefixC p = true) :
